@@ -177,6 +177,14 @@ def run_case(case, drv):
             add = f"ok:{1 if f2 else 0}:{1 if added else 0}"
         except Exception as e:  # noqa
             add, f2, added = core.err_kind(e), None, None
+        # the caller may re-use its list afterwards: what was stored must not change with it
+        pool_after = [list(r) for r in o.routes]
+        costs_after = list(o.route_costs)
+        r2[:] = ["clobbered-by-caller"] * 3
+        r1[:] = [0]
+        if [list(r) for r in o.routes] != pool_after or list(o.route_costs) != costs_after:
+            res.fail("route:aliases-caller-list", f"the stored pool changed when the caller re-used the list it had passed to add_route ({route})")
+            o.routes[:] = [list(r) for r in pool_after]
         line = f"{chk} {add}"
         if idx < len(mres) and line != mres[idx]:
             res.disagree(f"route #{idx} {route}", line, mres[idx])
